@@ -4,7 +4,7 @@
    positional value of digit strings. *)
 From Coq Require Import ZArith List String Bool Arith Lia.
 From SV Require Import C14.Tokens C14.Parse C14.Print C14.Scan C14.ProofsScan
-  C14.ProofsBase C14.ProofsExpr C14.ProofsTop C14.ProofsLayout C14.PrintStmt C14.ProofsStmt C14.ProofsStmt2.
+  C14.ProofsBase C14.ProofsExpr C14.ProofsTop C14.ProofsLayout C14.PrintStmt C14.ProofsStmt C14.ProofsStmt2 C14.ProofsSound C14.ProofsValid C14.ProofsValid3.
 Import ListNotations.
 Open Scope nat_scope.
 
@@ -50,18 +50,45 @@ Theorem span_start_is_first_token :
   forall e : expr, wp e = true -> isx e = true -> peekpos (tokens e) = start e.
 Proof. exact start_first_token_lemma. Qed.
 
-(* (5, partial) parse_sound.  FULL STATEMENT (not proved):
-     forall n ts e rest, p_expr (parsers n) b ts = Ok (e, rest) ->
-       wp e = true /\ ts =(modulo fusing of NOT IN) tokens e ++ rest
-   i.e. every accepted token list is the rendering of the returned tree, so a
-   near-miss text (one token deleted / duplicated / swapped) is either rejected
-   or is itself the rendering of the tree it is given.  The check evaluates this
-   statement (Check.sound_ok, vm_compute) on every expression and every
-   accepted near-miss of every run.  PROVED PART: rendering is injective on
-   well-formed trees -- two different trees never share a text, hence (with
-   parse_print_expr) the tree returned for a rendered text is the only tree
-   that renders to it. *)
-Theorem parse_sound_partial :
+(* ------------------------------------------------------------------------ *)
+(* (5) parse_sound: the converse, for ALL token lists and ALL fuel.  Whatever
+   the expression parser accepts, it returns a WELL-PARENTHESISED tree whose
+   rendering is exactly the accepted tokens (U = token kinds and values,
+   positions dropped, the parser-synthesised NOT_IN expanded back to `not`
+   `in`).  So a text is accepted only if it is the rendering of a tree of the
+   grammar, and it is given that tree: nothing outside the grammar is silently
+   given another meaning. *)
+Theorem parse_sound :
+  forall (n : nat) (inParens : bool) (ts : list ptok) (e : expr) (r : list ptok),
+    p_expr (parsers n) inParens ts = Ok (e, r) ->
+    wp e = true /\ isx e = true /\ (inParens = false -> noparen_ok e = true) /\
+    U ts = U (tokens e) ++ U r.
+Proof.
+  intros n b ts e r H. destruct (parse_wellformed_lemma n b ts e r H) as (Hw & Hi & Hn).
+  repeat split; auto. exact (parse_sound_tokens_lemma n b ts e r H).
+Qed.
+
+(* near-miss corollary, for FileOptions.ParseExpr as the model runs it: ANY
+   token list (in particular one obtained from a valid text by deleting,
+   duplicating or swapping a token) that is accepted is the rendering of the
+   well-formed tree returned for it, followed by NEWLINE? EOF (the list as the
+   scanner produces it ends at its first EOF), and that tree parses back from
+   its rendering (parse_expr_print): accepted near-misses are texts of the
+   grammar with exactly that meaning; all others are rejected. *)
+Theorem near_miss_rejected_or_rendering :
+  forall (ts : list ptok) (e : expr),
+    parse_expr ts = Ok e ->
+    (forall a b, U ts = a ++ EOF :: b -> b = []) ->
+    wf_expr e = true /\
+    exists tail, U ts = U (tokens e) ++ tail /\
+                 (tail = [EOF] \/ tail = [NEWLINE; EOF] \/ tail = [] \/ tail = [NEWLINE]).
+Proof.
+  intros ts e H Hl. split; [exact (parse_expr_wellformed_lemma ts e H)|].
+  exact (parse_expr_sound_tokens_eof_lemma ts e H Hl).
+Qed.
+
+(* rendering is injective on well-formed trees: two trees never share a text *)
+Theorem print_injective :
   forall e1 e2 : expr,
     wf_expr e1 = true -> wf_expr e2 = true -> tokens e1 = tokens e2 -> e1 = e2.
 Proof. exact print_injective_lemma. Qed.
@@ -79,11 +106,15 @@ Example parse_print_expr_ex :
   (parse_expr ex_tokens = Ok ex_tree) /\ (wp ex_tree = true) /\ (isx ex_tree = true) /\
   (expr_rest_ok ex_tree false ex_rest) /\ (lvl ex_tree = L_BIN 3) /\ (ok_at 3 ex_rest) /\
   (wf_expr ex_tree = true) /\ (size ex_tree <= List.length (tokens ex_tree)) /\
-  (map fst (tokens ex_tree ++ ex_rest) = map fst ex_tokens).
+  (map fst (tokens ex_tree ++ ex_rest) = map fst ex_tokens) /\
+  (U ex_tokens = U (tokens ex_tree) ++ [NEWLINE; EOF]) /\
+  (forall a b, U ex_tokens = a ++ EOF :: b -> b = []).
 Proof.
   split; [vm_compute; reflexivity|]. split; [vm_compute; reflexivity|]. split; [vm_compute; reflexivity|].
   split; [split; [reflexivity|discriminate]|]. split; [reflexivity|]. split; [reflexivity|].
-  split; [vm_compute; reflexivity|]. split; [vm_compute; repeat constructor|vm_compute; reflexivity].
+  split; [vm_compute; reflexivity|]. split; [vm_compute; repeat constructor|]. split; [vm_compute; reflexivity|].
+  split; [vm_compute; reflexivity|].
+  apply (eof_last_intro (removelast (U ex_tokens))); [vm_compute; intuition discriminate|vm_compute; reflexivity].
 Qed.
 
 (* ------------------------------------------------------------------------ *)
@@ -196,6 +227,15 @@ Theorem parse_print_file :
     p_file (parsers n) (flat_map tokens_c f ++ [(EOF, p)]) = Ok (flat_map flatten f).
 Proof. exact file_ok. Qed.
 
+(* the same when the last line has no final newline (grammar.txt: "'\n' optional at EOF") *)
+Theorem parse_print_file_no_final_newline :
+  forall (f : list cstmt) (l : list stmt) (sm : bool) (p : pos) (n : nat),
+    forallb cstmt_ok f = true -> line_ok l = true ->
+    40 * (csizes f + lsize l) + 60 <= n ->
+    p_file (parsers n) (flat_map tokens_c f ++ smalls_tokens l ++ (if sm then [semi] else []) ++ [(EOF, p)])
+    = Ok (flat_map flatten f ++ l).
+Proof. exact file_nonl_ok. Qed.
+
 (*  def f(a, *b,):          if x: return a; pass;
         y += 1              elif z:
         return                  load("m", "s", t="u")                    *)
@@ -211,5 +251,11 @@ Definition ex_file : list cstmt :=
 Example parse_print_file_ex :
   forallb cstmt_ok ex_file = true /\
   parse_file (flat_map tokens_c ex_file ++ [(EOF, (7,1)%Z)]) = Ok (flat_map flatten ex_file) /\
-  40 * csizes ex_file + 12 <= fuel_of (flat_map tokens_c ex_file ++ [(EOF, (7,1)%Z)]).
-Proof. split; [vm_compute; reflexivity|]. split; [vm_compute; reflexivity|vm_compute; repeat constructor]. Qed.
+  40 * csizes ex_file + 12 <= fuel_of (flat_map tokens_c ex_file ++ [(EOF, (7,1)%Z)]) /\
+  line_ok [ExprStmt (Ident (7,1)%Z "z")] = true /\
+  parse_file (flat_map tokens_c ex_file ++ smalls_tokens [ExprStmt (Ident (7,1)%Z "z")] ++ [] ++ [(EOF, (7,2)%Z)])
+  = Ok (flat_map flatten ex_file ++ [ExprStmt (Ident (7,1)%Z "z")]).
+Proof.
+  split; [vm_compute; reflexivity|]. split; [vm_compute; reflexivity|]. split; [vm_compute; repeat constructor|].
+  split; vm_compute; reflexivity.
+Qed.
